@@ -101,6 +101,10 @@ func (i *Interceptors) NewSegment(val string) (*Segment, error) {
 	seg.Name = val[start+1 : separator]
 	seg.cleanName()
 	seg.Suffix = val[end+1:]
+	// rule 本身必须是一个完整的正则表达式，否则可能打破外层的分组，比如 {id:a)|(b}。
+	if _, err := regexp.Compile(seg.rule); err != nil {
+		return nil, err
+	}
 	name := ":"
 	if !seg.ignoreName {
 		name = "P<" + seg.Name + ">"
